@@ -314,6 +314,8 @@ class Instantiator:
                 z3.Implies(e == 2, a == b * b),
                 z3.Implies(b == 1, a == 1),
                 z3.Implies(z3.And(e == -1, b != 0), a * b == 1),
+                z3.Implies(z3.And(e == z3.RealVal("1/3"), b >= 0), z3.And(a >= 0, a * a * a == b)),
+                z3.Implies(z3.And(e == z3.RealVal("1/2"), b >= 0), z3.And(a >= 0, a * a == b)),
             ]
             N("pow: positivity, 0^a=0 (a>0), x^0=1, x^1=x, x^2, 1^a=1, x^-1=1/x")
             if deep:
